@@ -159,7 +159,7 @@ def run_html(ctx):
         'non-trivial when the scanner reports at least one tag; distinct by (string, options).') % (
             3 if quick else 4, len(html_gen.ALPHABET), ''.join(html_gen.ALPHABET), len(c16_gen.CASE_SEEDS), 3 if quick else 4,
             ' and '.join('%s (options %s)' % (' '.join(t), on) for on, t in c16_gen.CASE_TOKENS),
-            'on' if SCALE else 'OFF', 17, '1100/1700/2600' if quick else '1100/1700/2600/6000/15000', USER_RECURSION_LIMIT)
+            'on' if SCALE else 'OFF', 17, '1100/1500/2100' if quick else '1100/1500/2100/5000', USER_RECURSION_LIMIT)
     ins = inputs(ctx)
     jobs = []
     meta = []
@@ -253,6 +253,19 @@ def run_html(ctx):
                            'opts': job[2], 'pos': None if i is None else job[3][i], 'impl': repr(a)[:300], 'model': repr(b)[:300]})
 
 
+def exception_name(s, pos, on):
+    """for the replay report only: which exception the three functions raise at this position"""
+    from emmet.html_matcher import match, balanced_outward, balanced_inward
+    out = []
+    with user_limit():
+        for f in (match, balanced_outward, balanced_inward):
+            try:
+                f(s, pos, hu.OPT_SETS[on])
+            except Exception as e:  # noqa: BLE001
+                out.append('%s: %s' % (f.__name__, type(e).__name__))
+    return ', '.join(out) or 'none this time'
+
+
 def replay_html(ctx, obj):
     rp = obj.get('replay', {})
     comp = rp.get('component')
@@ -262,6 +275,8 @@ def replay_html(ctx, obj):
         fail = check_string(s, on, run_impl(js), ps)
         shown = repr(s) if len(s) <= 400 else repr(s[:120]) + '...(%d characters)' % len(s)
         print('input %s options %s -> %s' % (shown, on, 'position %s: %s' % fail if fail else 'property holds'))
+        if fail and fail[0] is not None and 'raised' in fail[1]:
+            print('  the exception: %s' % exception_name(s, fail[0], on))
         return 1 if fail else 0
     if comp == 'c16-html-attrs':
         s, name = rp['input'], rp.get('name')
